@@ -78,18 +78,25 @@ const (
 	Transport = wsTran(0)
 )
 
-type options map[string]interface{}
+// options holds dialer/listener options; get and set may be called while a
+// Dial or Listen uses them, so the map is guarded by a lock.
+type options struct {
+	sync.Mutex
+	m map[string]interface{}
+}
 
 func init() {
 	transport.RegisterTransport(Transport)
 }
 
 // GetOption retrieves an option value.
-func (o options) get(name string) (interface{}, error) {
+func (o *options) get(name string) (interface{}, error) {
 	if name == mangos.OptionNoDelay {
 		return true, nil
 	}
-	v, ok := o[name]
+	o.Lock()
+	defer o.Unlock()
+	v, ok := o.m[name]
 	if !ok {
 		return nil, mangos.ErrBadOption
 	}
@@ -97,7 +104,9 @@ func (o options) get(name string) (interface{}, error) {
 }
 
 // SetOption sets an option.  We have none, so just ErrBadOption.
-func (o options) set(name string, val interface{}) error {
+func (o *options) set(name string, val interface{}) error {
+	o.Lock()
+	defer o.Unlock()
 	switch name {
 	case mangos.OptionNoDelay:
 		if _, ok := val.(bool); ok {
@@ -106,19 +115,19 @@ func (o options) set(name string, val interface{}) error {
 		return mangos.ErrBadValue
 	case OptionWebSocketCheckOrigin:
 		if v, ok := val.(bool); ok {
-			o[name] = v
+			o.m[name] = v
 			return nil
 		}
 		return mangos.ErrBadValue
 	case mangos.OptionTLSConfig:
 		if v, ok := val.(*tls.Config); ok {
-			o[name] = v
+			o.m[name] = v
 			return nil
 		}
 		return mangos.ErrBadValue
 	case mangos.OptionMaxRecvSize:
 		if v, ok := val.(int); ok {
-			o[name] = v
+			o.m[name] = v
 			return nil
 		}
 		return mangos.ErrBadValue
@@ -202,7 +211,7 @@ func (d *dialer) Dial() (transport.Pipe, error) {
 	wd := &websocket.Dialer{}
 
 	wd.Subprotocols = []string{d.proto.PeerName + ".sp.nanomsg.org"}
-	if v, ok := d.opts[mangos.OptionTLSConfig]; ok {
+	if v, err := d.opts.get(mangos.OptionTLSConfig); err == nil {
 		wd.TLSClientConfig = v.(*tls.Config)
 	}
 
@@ -316,8 +325,8 @@ func (l *listener) Listen() error {
 		return nil
 	}
 	if l.iswss {
-		v, ok := l.opts[mangos.OptionTLSConfig]
-		if !ok || v == nil {
+		v, err := l.opts.get(mangos.OptionTLSConfig)
+		if err != nil || v == nil {
 			return mangos.ErrTLSNoConfig
 		}
 		tcfg = v.(*tls.Config)
@@ -478,7 +487,7 @@ func (wsTran) NewDialer(addr string, sock mangos.Socket) (transport.Dialer, erro
 		addr:  addr,
 		proto: sock.Info(),
 		iswss: false,
-		opts:  make(map[string]interface{}),
+		opts:  options{m: make(map[string]interface{})},
 	}
 
 	if strings.HasPrefix(addr, "wss://") {
@@ -487,8 +496,8 @@ func (wsTran) NewDialer(addr string, sock mangos.Socket) (transport.Dialer, erro
 		return nil, mangos.ErrBadTran
 	}
 
-	d.opts[mangos.OptionNoDelay] = true
-	d.opts[mangos.OptionMaxRecvSize] = 0
+	d.opts.m[mangos.OptionNoDelay] = true
+	d.opts.m[mangos.OptionMaxRecvSize] = 0
 
 	return d, nil
 }
@@ -507,9 +516,9 @@ func (wsTran) listener(addr string, sock mangos.Socket) (*listener, error) {
 	l := &listener{
 		addr:  addr,
 		proto: sock.Info(),
-		opts:  make(map[string]interface{}),
+		opts:  options{m: make(map[string]interface{})},
 	}
-	l.opts[mangos.OptionMaxRecvSize] = 0
+	l.opts.m[mangos.OptionMaxRecvSize] = 0
 	l.cv.L = &l.lock
 	l.ug.Subprotocols = []string{l.proto.SelfName + ".sp.nanomsg.org"}
 
